@@ -319,10 +319,25 @@ def P_C03 (cfg : WireCfg) (fs : List Frame) (o : WireObs) : Verdict :=
 
 /-! #### P_C06 -/
 
+/-- wrong member types inside an otherwise well-formed request to the built-in interface:
+    `GetInterfaceDescription` whose `parameters` are present but carry no string `interface`
+    (object form) and are not a one-element array of a string -/
+def illTypedBuiltin (r : Request) : Bool :=
+  r.method == "org.varlink.service.GetInterfaceDescription" &&
+    match r.parameters with
+    | none => false
+    | some (.obj l) => (match Json.lookup "interface" l with | some (.str _) => false | _ => true)
+    | some (.arr [.str _]) => false
+    | some _ => true
+
+def isMalformedFrame : Frame → Bool
+  | .bad => true
+  | .req r => illTypedBuiltin r
+
 def P_C06 (cfg : WireCfg) (fs : List Frame) (o : WireObs) : Verdict :=
   if o.panicked then some "panic" else
   -- index of the first malformed frame
-  let k := fs.findIdx fun f => f == .bad
+  let k := fs.findIdx isMalformedFrame
   if k ≥ fs.length then none else
   let laterToks := (fs.drop k).filterMap fun f => match f with
     | .req r => tokenOfJson r.parameters
